@@ -569,6 +569,13 @@ def reject_reason(c):
     return "?"
 
 
+def cxx_default_diag(src, compiler, std):
+    """-fsyntax-only with the compiler's *default* diagnostics (vlib.cxx passes -w, which also switches off clang's
+    default-error -Wc++11-narrowing; acceptance by the compiler is an observable of this property, so no -w here)."""
+    rc, o, e = run([compiler, f"-std={std}", "-I", AU_INC, "-fsyntax-only", src], timeout=600)
+    return rc, o + e
+
+
 def probe_src(c, unit, header):
     uq = "au::UnitProductT<>" if c["ul"] else "au::" + unit
     return (f'#include "au/quantity.hh"\n#include "au/units/{header}"\n'
@@ -635,6 +642,7 @@ def explore_ops(wd, drv, configs, rng, tier, seed, stats, viol, samples, distinc
         answers, errs = run_lines(exe, lines, heavy=lambda l: l[0] == "S")
         open(os.path.join(wd, f"ops_stderr_{tag}.txt"), "w").write("\n".join(errs))
         types = {}
+        sampled_ops = set() if not any("request" in x and x["request"].startswith("P ") for x in samples) else set(FUNCTOR)
         for l, (kind, c, a, b), ans in zip(lines, meta, answers):
             m = mt[key(c)]
             base = {"op": c["op"], "R": c["R"], "T": c["T"], "ul": c["ul"], "config": cfg}
@@ -717,7 +725,9 @@ def explore_ops(wd, drv, configs, rng, tier, seed, stats, viol, samples, distinc
             distinct.add((c["op"], c["R"], c["T"], a, b))
             mp = mpoint[(key(c), a, b)]
             pbase = dict(base, a=a, b=b)
-            if len(samples) < 12 and c["R"] not in ("i32",) and a not in (0, 1):
+            if c["op"] not in sampled_ops and r["def"] == "1" and a not in (0, 1) and (c["R"] != c["T"] or c["op"] in SAME_OPS) \
+                    and (len(sampled_ops) % 3 != 0 or not is_int(c["R"])):
+                sampled_ops.add(c["op"])
                 samples.append({"request": l, "harness": ans, "model": pans[pidx.index((key(c), a, b))], "config": cfg})
             ints = is_int(c["R"]) and is_int(c["T"])
             if ints:
@@ -772,7 +782,7 @@ def explore_ops(wd, drv, configs, rng, tier, seed, stats, viol, samples, distinc
         def probe(c):
             p = os.path.join(wd, f"neg_{tag}_{c['op']}_{c['R']}_{c['T']}_{c['ul']}.cc")
             open(p, "w").write(probe_src(c, unit, header))
-            rc, out = cxx(p, None, compiler=compiler, std=std, san=False, syntax_only=True, extra=["-Wno-everything"] if fam == "clang" else [])
+            rc, out = cxx_default_diag(p, compiler, std)
             return c, rc, out
         for c, rc, out in pmap(probe, chosen):
             stats["neg_probes"] += 1
@@ -1023,7 +1033,7 @@ def replay(path):
         print("model :", mt[key(c)])
         src = os.path.join(wd, "probe.cc")
         open(src, "w").write(probe_src(c, unit, header))
-        rc, out = cxx(src, None, compiler=compiler, std=std, san=False, syntax_only=True)
+        rc, out = cxx_default_diag(src, compiler, std)
         print(f"compiler verdict ({compiler} -std={std}):", "accepted" if rc == 0 else "rejected")
         if rc != 0:
             print(out[-600:])
